@@ -57,7 +57,10 @@ def _one(ctx, i, rep=None):
     PS = install_parse_state()
     r, gen_, g = gen(ctx, i)
     rep = rep or {'i': i}
-    text = RP.pr_grammar(g)
+    variant = ctx.rng('litspelling', i).choice([0, 0, 0, 0, 1, 2, 3])
+    text = P.pr_variant(g, variant)
+    if variant:
+        ctx.count('grammars_with_escaped_literal_spelling')
     cfg = P.random_cfg(r)
     try:
         mm = P.make_mm(text, **cfg)
